@@ -79,6 +79,17 @@ class _Canon(ast.NodeTransformer):
             e = v.value
             mk = lambda x: ast.copy_location(ast.Expr(value=ast.copy_location(ast.Yield(value=x), v)), node)
             return ast.copy_location(ast.If(test=e.test, body=[mk(e.body)], orelse=[mk(e.orelse)]), node)
+        # `yield from (E for x in S if C)`  ->  for x in S: if C: yield E     (same order of evaluation; the only difference, the
+        # private scope of the comprehension variable, is invisible unless the function reads that name afterwards)
+        if isinstance(v, ast.YieldFrom) and isinstance(v.value, ast.GeneratorExp) and \
+                not any(g.is_async for g in v.value.generators):
+            ge = v.value
+            body = [ast.copy_location(ast.Expr(value=ast.copy_location(ast.Yield(value=ge.elt), v)), node)]
+            for g in reversed(ge.generators):
+                for c in reversed(g.ifs):
+                    body = [ast.copy_location(ast.If(test=c, body=body, orelse=[]), node)]
+                body = [ast.copy_location(ast.For(target=g.target, iter=g.iter, body=body, orelse=[], type_comment=None), node)]
+            return self.visit(body[0]) if isinstance(body[0], ast.If) else body[0]
         return node
 
     def visit_Return(self, node):
